@@ -100,6 +100,7 @@ class AttackSession:
         mapping = {int(e): (set(int(x) for x in s) if isinstance(s, list) else int(s)) for e, s in actor["mapping"]}
         self.actor = ACTORS[self.kind](grid=self.w.grid, agents=self.w.agents, attack_mapping=mapping,
                                        stacked_attacks=bool(actor["stacked"]))
+        self.w.finish()
         # after the constructor: "FULL" ranges are resolved, integer rows of the mapping are sets
         self.stat = self.w.stat_wire()
         self.stat_s = wire.enc(self.stat)
@@ -454,6 +455,7 @@ class AttackProp(core.Prop):
         made = 0
         while made < nworlds:
             desc, actor = gen_attack_world(rng, big=not quick)
+            gridw.maybe_enc0(rng, desc, 0.08)
             actor["kind"] = KINDS[made % 4]          # the four actors in equal shares
             ood = False
             if actor["kind"] != "encoding" and rng.random() < 0.04:
